@@ -186,3 +186,4 @@ def run(ck):
                   "hash version equals verifier version", f.loc())
 
     narrowing_len_sweep(ck, crate("rs", "concordium_base"), re.compile(r"concordium_base::transactions::"), re.compile(r"(verify|check)[a-z_0-9]*(::\\{closure#\\d+\\})*$"))
+    eq_polarity_sweep(ck, crate("rs", "concordium_base"), re.compile(r"concordium_base::transactions::"), re.compile(r"(verify|check)[a-z_0-9]*(::\\{closure#\\d+\\})*$"))
